@@ -1308,4 +1308,148 @@ example : convert ((List.range 2).map (rawRow sampleOrig 2)) = some sampleOs ∧
     Uniform (((List.range 2).map (rawRow sampleOrig 2)).map (·.occ)) := by
   constructor <;> decide +kernel
 
+/-! ## deepen7: filter algebra, round-trip corollaries, "no value" normalisation, field widths -/
+
+/-- filtering twice with the same sets is the same as filtering once (idempotence of `from_file` filters) -/
+theorem filter_idem (k : Bool) (es rs : List Str) (as : List Atom) :
+    filterAtoms k es rs (filterAtoms k es rs as) = filterAtoms k es rs as := by
+  simp [filterAtoms, List.filter_filter]
+
+/-- composing two filters keeps exactly the atoms matching the conjunction of both predicates -/
+theorem filter_comp (k k' : Bool) (es rs es' rs' : List Str) (as : List Atom) :
+    filterAtoms k es rs (filterAtoms k' es' rs' as) =
+      as.filter (fun a => keepAtom k es rs a && keepAtom k' es' rs' a) := by
+  simp [filterAtoms, List.filter_filter]
+
+/-- two filters commute -/
+theorem filter_comm (k k' : Bool) (es rs es' rs' : List Str) (as : List Atom) :
+    filterAtoms k es rs (filterAtoms k' es' rs' as) = filterAtoms k' es' rs' (filterAtoms k es rs as) := by
+  rw [filter_comp, filter_comp]
+  apply List.filter_congr
+  intro a _; exact Bool.and_comm _ _
+
+/-- no element set, no residue set and keeping non-ATOM records: the filter is the identity -/
+theorem filter_all (as : List Atom) : filterAtoms true [] [] as = as := by
+  simp [filterAtoms, keepAtom]
+
+/-- a filter never increases the number of atoms -/
+theorem filter_length_le (k : Bool) (es rs : List Str) (as : List Atom) :
+    (filterAtoms k es rs as).length ≤ as.length := List.length_filter_le _ _
+
+/-- filtering is atom-wise: it distributes over concatenation of structures -/
+theorem filter_append (k : Bool) (es rs : List Str) (as bs : List Atom) :
+    filterAtoms k es rs (as ++ bs) = filterAtoms k es rs as ++ filterAtoms k es rs bs := by
+  simp [filterAtoms]
+
+/-- a filter preserves order: any relation holding pairwise (earlier, later) before holds after -/
+theorem filter_pairwise (R : Atom → Atom → Prop) (k : Bool) (es rs : List Str) (as : List Atom)
+    (h : as.Pairwise R) : (filterAtoms k es rs as).Pairwise R :=
+  h.sublist List.filter_sublist
+
+/-- filtering commutes with the PDB round trip: writing and reading the filtered structure gives the
+filter of the written-and-read structure -/
+theorem filter_pdb_roundtrip (k : Bool) (es rs : List Str) (as : List Atom) (h : ∀ a ∈ as, WfPdb a) :
+    (writePdb (filterAtoms k es rs as)).bind loadPdb =
+      ((writePdb as).bind loadPdb).map (filterAtoms k es rs) := by
+  have hf : ∀ a ∈ filterAtoms k es rs as, WfPdb a := fun a ha => h a (List.filter_sublist.subset ha)
+  rw [pdb_roundtrip as h, pdb_roundtrip _ hf]
+  rfl
+
+/-- the PDB round trip preserves the number of atoms -/
+theorem pdb_roundtrip_length (as r : List Atom) (h : ∀ a ∈ as, WfPdb a)
+    (hr : (writePdb as).bind loadPdb = some r) : r.length = as.length := by
+  rw [pdb_roundtrip as h] at hr; cases hr; rfl
+
+/-- the PDB round trip maps index `i` to index `i` -/
+theorem pdb_roundtrip_index (as r : List Atom) (h : ∀ a ∈ as, WfPdb a)
+    (hr : (writePdb as).bind loadPdb = some r) (i : Nat) : r[i]? = as[i]? := by
+  rw [pdb_roundtrip as h] at hr; cases hr; rfl
+
+/-- a second PDB round trip changes nothing (write-read is idempotent) -/
+theorem pdb_roundtrip_twice (as : List Atom) (h : ∀ a ∈ as, WfPdb a) :
+    ((writePdb as).bind loadPdb).bind (fun r => (writePdb r).bind loadPdb) = (writePdb as).bind loadPdb := by
+  rw [pdb_roundtrip as h]; exact pdb_roundtrip as h
+
+/-- the mmCIF round trip preserves the number of atoms -/
+theorem cif_roundtrip_length (as r : List Atom) (hne : as ≠ []) (h : ∀ a ∈ as, WfCifFile a)
+    (hr : (writeCif none as).bind loadCif = some r) : r.length = as.length := by
+  rw [cif_roundtrip as hne h] at hr; cases hr; simp
+
+/-- the mmCIF round trip maps index `i` to index `i` (up to the "." written for an empty field) -/
+theorem cif_roundtrip_index (as r : List Atom) (hne : as ≠ []) (h : ∀ a ∈ as, WfCifFile a)
+    (hr : (writeCif none as).bind loadCif = some r) (i : Nat) : r[i]? = as[i]?.map normCif := by
+  rw [cif_roundtrip as hne h] at hr; cases hr; simp
+
+/-- the normalisation the mmCIF reader applies to an atom ("." for empty) is idempotent -/
+theorem normCif_idem (a : Atom) : normCif (normCif a) = normCif a := by
+  simp [normCif, tok_tok]
+
+/-- "no value" normalisation is idempotent -/
+theorem normStr_idem (s : Str) : normStr (normStr s) = normStr s := by
+  unfold normStr; split <;> simp_all [noVal]
+
+/-- the three spellings of "no value" normalise to the same thing, and anything else is unchanged -/
+theorem normStr_spec (s : Str) :
+    normStr [] = [] ∧ normStr ['.'] = [] ∧ normStr ['?'] = [] ∧
+    (s ≠ [] → s ≠ ['.'] → s ≠ ['?'] → normStr s = s) := by
+  refine ⟨by decide, by decide, by decide, ?_⟩
+  intro h1 h2 h3
+  simp [normStr, noVal, h1, h2, h3]
+
+/-- equality up to "no value" is reflexive -/
+theorem sameNamed_refl (a : Atom) : sameNamed a a :=
+  ⟨rfl, rfl, rfl, rfl, rfl, rfl, rfl, rfl, rfl, rfl, rfl, rfl, rfl, rfl, rfl⟩
+
+/-- equality up to "no value" is symmetric -/
+theorem sameNamed_symm {a b : Atom} (h : sameNamed a b) : sameNamed b a := by
+  obtain ⟨h1, h2, h3, h4, h5, h6, h7, h8, h9, h10, h11, h12, h13, h14, h15⟩ := h
+  exact ⟨h1.symm, h2.symm, h3.symm, h4.symm, h5.symm, h6.symm, h7.symm, h8.symm, h9.symm, h10.symm,
+    h11.symm, h12.symm, h13.symm, h14.symm, h15.symm⟩
+
+/-- equality up to "no value" is transitive -/
+theorem sameNamed_trans {a b c : Atom} (h : sameNamed a b) (g : sameNamed b c) : sameNamed a c := by
+  obtain ⟨h1, h2, h3, h4, h5, h6, h7, h8, h9, h10, h11, h12, h13, h14, h15⟩ := h
+  obtain ⟨g1, g2, g3, g4, g5, g6, g7, g8, g9, g10, g11, g12, g13, g14, g15⟩ := g
+  exact ⟨h1.trans g1, h2.trans g2, h3.trans g3, h4.trans g4, h5.trans g5, h6.trans g6, h7.trans g7,
+    h8.trans g8, h9.trans g9, h10.trans g10, h11.trans g11, h12.trans g12, h13.trans g13, h14.trans g14,
+    h15.trans g15⟩
+
+/-- `f"{s:<w}"` of a value that fits is exactly `w` characters wide -/
+theorem ljust_length_eq (w : Nat) (s : Str) (h : s.length ≤ w) : (ljust w s).length = w := by
+  simp [ljust, spaces]; omega
+
+/-- `f"{s:>w}"` of a value that fits is exactly `w` characters wide -/
+theorem rjust_length_eq (w : Nat) (s : Str) (h : s.length ≤ w) : (rjust w s).length = w := by
+  simp [rjust, spaces]; omega
+
+/-- a value wider than its column is not truncated by the f-string: the field overflows -/
+theorem ljust_overflow (w : Nat) (s : Str) (h : w ≤ s.length) : ljust w s = s ∧ rjust w s = s := by
+  have : w - s.length = 0 := by omega
+  simp [ljust, rjust, spaces, this]
+
+example : (writePdb [sampleAtom]).bind loadPdb = some [sampleAtom] :=
+  pdb_roundtrip _ (by intro a ha; simp at ha; subst ha; exact sample_wfPdb)
+example : (writeCif none [sampleAtom]).bind loadCif = some [normCif sampleAtom] :=
+  cif_roundtrip _ (by simp) (by intro a ha; simp at ha; subst ha; exact sample_wfCifFile)
+
+/-- fixed-width text field: a whitespace-free value that fits is written at exactly the column width and
+`strip` of the written field (left- or right-justified) gives the value back -/
+theorem field_write_read (w : Nat) (s : Str) (hc : Clean s) (h : s.length ≤ w) :
+    (ljust w s).length = w ∧ (rjust w s).length = w ∧ strip (ljust w s) = s ∧ strip (rjust w s) = s :=
+  ⟨length_ljust w s h, length_rjust w s h, strip_ljust hc w, strip_rjust hc w⟩
+
+/-- fixed-width integer field: whatever the column width, `int(field.strip())` of a right-justified
+`str(i)` is `i` -/
+theorem int_field_write_read (i : Int) (w : Nat) : intCell (rjust w (showInt i)) = some i :=
+  intCell_showInt_rjust i w
+
+/-- the mmCIF round trip of a filtered structure returns exactly the filtered atoms, in order -/
+theorem filter_cif_roundtrip (k : Bool) (es rs : List Str) (as : List Atom) (h : ∀ a ∈ as, WfCifFile a)
+    (hne : filterAtoms k es rs as ≠ []) :
+    (writeCif none (filterAtoms k es rs as)).bind loadCif = some ((filterAtoms k es rs as).map normCif) :=
+  cif_roundtrip _ hne (fun a ha => h a (List.filter_sublist.subset ha))
+
+example : Clean "CA".toList ∧ "CA".toList.length ≤ 4 := by decide
+example : filterAtoms true [] [] [sampleAtom] ≠ [] := by decide
+
 end Pm.C09
